@@ -513,3 +513,279 @@ def gen_xinclude_errs():
         out += 'def %s : String := "%s"\n' % (nm, xmlch(nm))
     out += "\nend XV.Gen.XIncludeErrs\n"
     return out
+
+
+# ---- C18 (builder) ----
+# ------------------------------------------------------------------ C18: DOM heap constants, LONG_MAX
+def _probe_cxx(code, what):
+    """Compile and run a tiny program against the xerces headers (inline functions / sizeof only)."""
+    import os, subprocess, tempfile, hashlib
+    import common
+    d = os.path.join(common.WORK, "translate")
+    os.makedirs(d, exist_ok=True)
+    hdr = os.path.join(common.REPO, "src", "xercesc", "util", "PlatformUtils.hpp")
+    try:
+        stamp = hashlib.sha256(code.encode() + open(hdr, "rb").read()).hexdigest()[:16]
+    except OSError as e:
+        raise TranslateError("cannot read PlatformUtils.hpp: %s" % e)
+    cache = os.path.join(d, "probe-%s.out" % stamp)
+    if os.path.exists(cache):
+        return open(cache).read()
+    cpp = os.path.join(d, "probe-%s.cpp" % stamp)
+    exe = os.path.join(d, "probe-%s" % stamp)
+    open(cpp, "w").write(code)
+    p = subprocess.run(["clang++-14", "-std=gnu++17", "-I" + os.path.join(common.REPO, "src"),
+                        "-I" + os.path.join(common.BUILD, "src"), cpp, "-o", exe],
+                       stdout=subprocess.PIPE, stderr=subprocess.PIPE)
+    if p.returncode != 0:
+        raise TranslateError("%s: probe does not compile: %s" % (what, p.stderr.decode(errors="replace")[-400:]))
+    out = subprocess.run([exe], stdout=subprocess.PIPE).stdout.decode()
+    open(cache, "w").write(out)
+    return out
+
+def _need(pattern, text, rel, what):
+    m = re.search(pattern, text, flags=re.S)
+    if not m:
+        raise TranslateError("%s: %s not found (pattern %r)" % (rel, what, pattern))
+    return m
+
+def _func_body(text, header_re, rel):
+    m = re.search(header_re, text)
+    if not m:
+        raise TranslateError("%s: function %r not found" % (rel, header_re))
+    i = text.index("{", m.end() - 1)
+    depth, j = 0, i
+    while j < len(text):
+        if text[j] == "{": depth += 1
+        elif text[j] == "}":
+            depth -= 1
+            if depth == 0: break
+        j += 1
+    return text[i:j + 1]
+
+@translate.register("DomHeap")
+def gen_domheap():
+    rel = "dom/impl/DOMDocumentImpl.cpp"
+    t = strip_c_comments(src(rel))
+    vals = {}
+    for nm in ("kInitialHeapAllocSize", "kMaxHeapAllocSize", "kMaxSubAllocationSize"):
+        m = _need(r"static\s+XMLSize_t\s+%s\s*=\s*([0-9xXa-fA-F]+)\s*;" % nm, t, rel, nm)
+        vals[nm] = c_int(m.group(1))
+    body = re.sub(r"\s+", "", _func_body(t, r"void\s*\*\s*DOMDocumentImpl::allocate\s*\(\s*XMLSize_t\s+amount\s*\)\s*\{", rel))
+    # the statements the code-shaped model mirrors, in order (whitespace-free)
+    skeleton = [
+        ("align", "amount=XMLPlatformUtils::alignPointerForNewBlockAllocation(amount);"),
+        ("oversize test", ("if(amount>kMaxSubAllocationSize){",
+                           "if(amount>kMaxSubAllocationSize||(amount>fFreeBytesRemaining&&(fHeapAllocSize<sizeOfHeader||amount>fHeapAllocSize-sizeOfHeader))){")),
+        ("singleton block size", "fMemoryManager->allocate(sizeOfHeader+amount);"),
+        ("singleton link", "if(fCurrentSingletonBlock){*(void**)newBlock=*(void**)fCurrentSingletonBlock;*(void**)fCurrentSingletonBlock=newBlock;}else{*(void**)newBlock=0;fCurrentSingletonBlock=newBlock;}"),
+        ("singleton result", "void*retPtr=(char*)newBlock+sizeOfHeader;returnretPtr;}"),
+        ("room test", "if(amount>fFreeBytesRemaining){"),
+        ("block size", "newBlock=fMemoryManager->allocate(fHeapAllocSize);"),
+        ("block link", "*(void**)newBlock=fCurrentBlock;fCurrentBlock=newBlock;fFreePtr=(char*)newBlock+sizeOfHeader;fFreeBytesRemaining=fHeapAllocSize-sizeOfHeader;"),
+        ("growth", None),
+        ("carve", "void*retPtr=fFreePtr;fFreePtr+=amount;fFreeBytesRemaining-=amount;returnretPtr;}"),
+    ]
+    pos = 0
+    grow = None
+    recheck = False
+    for what, pat in skeleton:
+        if pat is None:
+            m = re.compile(r"if\(fHeapAllocSize<kMaxHeapAllocSize\)fHeapAllocSize\*=(\d+);\}").match(body, pos)
+            if not m:
+                raise TranslateError("%s: allocate(): statement '%s' not where the model expects it: ...%s" % (rel, what, body[pos:pos + 80]))
+            grow = int(m.group(1)); pos = m.end()
+            continue
+        if isinstance(pat, tuple):      # pinned shape | shape after fixes/C18-dom-arena-recheck-fit.diff
+            ks = [(body.find(q, pos), n) for n, q in enumerate(pat) if body.find(q, pos) >= 0]
+            if not ks:
+                raise TranslateError("%s: allocate(): statement '%s' not found after offset %d" % (rel, what, pos))
+            k, which = min(ks)
+            recheck = which == 1
+            pat = pat[which]
+        k = body.find(pat, pos)
+        if k < 0:
+            raise TranslateError("%s: allocate(): statement '%s' not found after offset %d" % (rel, what, pos))
+        between = body[pos:k]
+        # only declarations of sizeOfHeader / newBlock may sit between mirrored statements
+        between = between.replace("XMLSize_tsizeOfHeader=XMLPlatformUtils::alignPointerForNewBlockAllocation(sizeof(void*));", "")
+        between = between.replace("void*newBlock=", "").replace("void*newBlock;", "").replace("{", "")
+        if between:
+            raise TranslateError("%s: allocate(): unexpected code before '%s': %s" % (rel, what, between[:120]))
+        pos = k + len(pat)
+    if body[pos:] != "":
+        raise TranslateError("%s: allocate(): unexpected trailing code: %s" % (rel, body[pos:][:120]))
+    setb = re.sub(r"\s+", "", _func_body(t, r"void\s+DOMDocumentImpl::setMemoryAllocationBlockSize\s*\(\s*XMLSize_t\s+size\s*\)\s*\{", rel))
+    if setb != "{if(size>kMaxSubAllocationSize)fHeapAllocSize=size;}":
+        raise TranslateError("%s: setMemoryAllocationBlockSize no longer has the modelled shape: %s" % (rel, setb[:160]))
+    probe = _probe_cxx(
+        '#include <climits>\n#include <cstdio>\n#include <xercesc/util/PlatformUtils.hpp>\n'
+        'using namespace XERCES_CPP_NAMESPACE;\nint main(){\n'
+        ' printf("%zu %zu %ld %zu\\n", (size_t)XMLPlatformUtils::alignPointerForNewBlockAllocation(1),'
+        ' (size_t)XMLPlatformUtils::alignPointerForNewBlockAllocation(sizeof(void*)), LONG_MAX, sizeof(void*)); return 0; }\n', "DomHeap")
+    try:
+        align, header, longmax, ptrsize = [int(x) for x in probe.split()]
+    except ValueError:
+        raise TranslateError("DomHeap probe printed %r" % probe)
+    # Initialize / Terminate: the statements of the counter machine
+    rel2 = "util/PlatformUtils.cpp"
+    u = re.sub(r"\s+", "", strip_c_comments(src(rel2)))
+    for what, pat in (
+        ("overflow guard", "if(gInitFlag==LONG_MAX)return;gInitFlag++;if(gInitFlag>1)return;"),
+        ("manager choice", "if(!fgMemoryManager){if(memoryManager){fgMemoryManager=memoryManager;fgMemMgrAdopted=false;}else{fgMemoryManager=newMemoryManagerImpl();}}"),
+        ("heap overload", "Initialize(locale,nlsHome,panicHandler,memoryManager);if(gInitFlag==1)XMLInitializer::initializeDOMHeap(initialDOMHeapAllocSize,maxDOMHeapAllocSize,maxDOMSubAllocationSize);"),
+        ("underflow guard", "if(gInitFlag==0)return;gInitFlag--;if(gInitFlag>0)return;"),
+        ("manager release", "if(fgMemMgrAdopted)deletefgMemoryManager;elsefgMemMgrAdopted=true;fgMemoryManager=0;gInitFlag=0;}"),
+        ("flag", "staticlonggInitFlag=0;"), ("adopted default", "boolXMLPlatformUtils::fgMemMgrAdopted=true;")):
+        if pat not in u:
+            raise TranslateError("%s: %s no longer has the modelled shape" % (rel2, what))
+    # does Terminate put the DOM heap sizes back?  (shape after fixes/C18-terminate-resets-dom-heap.diff)
+    ini = re.sub(r"\s+", "", strip_c_comments(src("util/XMLInitializer.cpp")))
+    tm = re.search(r"voidXMLInitializer::terminateDOMHeap\(\)\{kInitialHeapAllocSize=(\w+);kMaxHeapAllocSize=(\w+);kMaxSubAllocationSize=(\w+);\}",
+                   re.sub(r"\s+", "", t))
+    term_body = _func_body(ini, r"voidXMLInitializer::terminateStaticData\(\)\{", "util/XMLInitializer.cpp")
+    heap_reset = False
+    if tm or "terminateDOMHeap" in ini:
+        if not tm or "terminateDOMHeap();" not in term_body:
+            raise TranslateError("terminateDOMHeap present but not in the modelled shape / not called from terminateStaticData")
+        if [c_int(tm.group(i)) for i in (1, 2, 3)] != [vals["kInitialHeapAllocSize"], vals["kMaxHeapAllocSize"], vals["kMaxSubAllocationSize"]]:
+            raise TranslateError("terminateDOMHeap does not restore the static initialisers")
+        heap_reset = True
+    # the one arena allocation every DOMDocumentImpl constructor makes
+    tw = re.sub(r"\s+", "", t)
+    nts = set(re.findall(r"fNameTableSize\((\d+)\)", tw))
+    if len(nts) != 1:
+        raise TranslateError("%s: fNameTableSize initialisers not found / not unique: %r" % (rel, nts))
+    n_ctor = tw.count("fNameTable=(DOMStringPoolEntry**)allocate(sizeof(DOMStringPoolEntry*)*fNameTableSize);")
+    if n_ctor != 2 or tw.count("allocate(") - tw.count("->allocate(") - tw.count("::allocate(") < n_ctor:
+        raise TranslateError("%s: constructors no longer make exactly the modelled name-table allocation" % rel)
+    ctor_alloc = ptrsize * int(nts.pop())
+    out = HEADER + "namespace XV.Gen.DomHeap\n\n"
+    out += "/-- `allocate(sizeof(DOMStringPoolEntry*) * fNameTableSize)` in both constructors -/\ndef ctorFirstAlloc : Nat := %d\n" % ctor_alloc
+    out += "def kInitialHeapAllocSize : Nat := %d\n" % vals["kInitialHeapAllocSize"]
+    out += "def kMaxHeapAllocSize : Nat := %d\n" % vals["kMaxHeapAllocSize"]
+    out += "def kMaxSubAllocationSize : Nat := %d\n" % vals["kMaxSubAllocationSize"]
+    out += "/-- alignPointerForNewBlockAllocation(1) on this platform -/\ndef alignment : Nat := %d\n" % align
+    out += "/-- alignPointerForNewBlockAllocation(sizeof(void*)) -/\ndef sizeOfHeader : Nat := %d\n" % header
+    out += "/-- `fHeapAllocSize *= N` -/\ndef growFactor : Nat := %d\n" % grow
+    out += "def longMax : Nat := %d\n" % longmax
+    out += "/-- `allocate` sends a request that a fresh block cannot hold to the single-block path -/\ndef recheckFit : Bool := %s\n" % ("true" if recheck else "false")
+    out += "/-- `Terminate` restores the three DOM heap sizes to their static initialisers -/\ndef termResetsHeap : Bool := %s\n" % ("true" if heap_reset else "false")
+    out += "\nend XV.Gen.DomHeap\n"
+    return out
+
+
+# ---- C13 (builder) ----
+# ------------------------------------------------------------------ Gen/KidOK (C13)
+def _enum_values(text, enum_name, rel):
+    """name -> int of `enum <enum_name> { A = 1, B = 2, ... }` (explicit or implicit values)"""
+    t = strip_c_comments(text)
+    m = re.search(r"\benum\s+%s\s*\{([^}]*)\}" % re.escape(enum_name), t)
+    if not m:
+        raise TranslateError("enum %s not found in %s" % (enum_name, rel))
+    vals, nxt = {}, 0
+    for item in m.group(1).split(","):
+        item = item.strip()
+        if not item:
+            continue
+        if "=" in item:
+            nm, v = item.split("=", 1)
+            nxt = c_int(v)
+            vals[nm.strip()] = nxt
+        else:
+            vals[item] = nxt
+        nxt += 1
+    return vals
+
+
+@translate.register("KidOK")
+def gen_kidok():
+    """isKidOK lookup table of dom/impl/DOMDocumentImpl.cpp, evaluated from the assignment statements,
+    plus the DOMNode::NodeType and DOMException::ExceptionCode enums."""
+    rel_h = "dom/DOMNode.hpp"
+    types = _enum_values(src(rel_h), "NodeType", rel_h)
+    rel_e = "dom/DOMException.hpp"
+    codes = _enum_values(src(rel_e), "ExceptionCode", rel_e)
+    rel = "dom/impl/DOMDocumentImpl.cpp"
+    t = strip_c_comments(src(rel))
+    m = re.search(r"bool\s+DOMDocumentImpl::isKidOK\s*\([^)]*\)\s*\{", t)
+    if not m:
+        raise TranslateError("DOMDocumentImpl::isKidOK not found in " + rel)
+    i = m.end(); depth = 1; j = i
+    while depth and j < len(t):
+        if t[j] == "{": depth += 1
+        elif t[j] == "}": depth -= 1
+        j += 1
+    body = t[i:j - 1]
+    md = re.search(r"static\s+(?:const\s+)?int\s+kidOK\s*\[\s*(\d+)\s*\]", body)
+    if not md:
+        raise TranslateError("static [const] int kidOK[N] not found in isKidOK")
+    n = int(md.group(1))
+    table = [0] * n
+
+    def ty(name):
+        name = name.strip()
+        mm = re.fullmatch(r"DOMNode::(\w+)", name)
+        if not mm or mm.group(1) not in types:
+            raise TranslateError("isKidOK: unknown node type %r" % name)
+        return types[mm.group(1)]
+
+    consts = {}
+
+    def ev(expr):
+        """value of `term | term | ...`, term = 0 | 1 << DOMNode::X | previously defined constant"""
+        val = 0
+        for term in expr.split("|"):
+            term = term.strip()
+            if re.fullmatch(r"0", term):
+                continue
+            mt = re.fullmatch(r"1\s*<<\s*([\w:]+)", term)
+            if mt:
+                val |= 1 << ty(mt.group(1))
+            elif term in consts:
+                val |= consts[term]
+            else:
+                raise TranslateError("isKidOK: cannot evaluate %r" % term)
+        return val
+
+    for mc in re.finditer(r"static\s+const\s+int\s+(\w+)\s*=\s*([^;{]+);", body):
+        consts[mc.group(1)] = ev(mc.group(2))
+    mi = re.search(r"kidOK\s*\[\s*\d+\s*\]\s*=\s*\{([^}]*)\}", body)
+    if mi:
+        # form B: a statically initialised table, one initialiser per node type
+        items = [x for x in (s.strip() for s in mi.group(1).split(",")) if x]
+        if len(items) > n:
+            raise TranslateError("isKidOK: %d initialisers for kidOK[%d]" % (len(items), n))
+        for k, it in enumerate(items):
+            table[k] = ev(it)
+        stmts = len(items)
+    else:
+        # form A: chained assignment statements `kidOK[DOMNode::A] = kidOK[DOMNode::B] = ... = expr;`
+        stmts = 0
+        for st in re.finditer(r"((?:kidOK\s*\[\s*[\w:]+\s*\]\s*=\s*)+)([^;=]+);", body):
+            targets = re.findall(r"kidOK\s*\[\s*([\w:]+)\s*\]\s*=", st.group(1))
+            val = ev(st.group(2).strip())
+            for tg in targets:
+                k = ty(tg)
+                if k >= n:
+                    raise TranslateError("isKidOK: index %d outside kidOK[%d]" % (k, n))
+                table[k] = val
+            stmts += 1
+    if stmts < 3:
+        raise TranslateError("isKidOK: table not recognised")
+    # shape of the lookup itself
+    if not re.search(r"\(\s*kidOK\s*\[\s*p\s*\]\s*&\s*1\s*<<\s*ch\s*\)\s*!=\s*0", body):
+        raise TranslateError("isKidOK: lookup expression `(kidOK[p] & 1<<ch) != 0` not found")
+    ws_rule = bool(re.search(r"p\s*==\s*DOMNode::DOCUMENT_NODE\s*&&\s*ch\s*==\s*DOMNode::TEXT_NODE", body)
+                   and "isAllSpaces" in body)
+    out = HEADER + "namespace XV.Gen.KidOK\n\n"
+    out += "/-- DOMNode::NodeType -/\ndef nodeTypes : List (String × Nat) := [\n  " + ",\n  ".join(
+        '("%s", %d)' % (k, v) for k, v in sorted(types.items(), key=lambda kv: kv[1])) + "]\n\n"
+    out += "/-- DOMException::ExceptionCode -/\ndef excCodes : List (String × Nat) := [\n  " + ",\n  ".join(
+        '("%s", %d)' % (k, v) for k, v in sorted(codes.items(), key=lambda kv: kv[1])) + "]\n\n"
+    out += "/-- `kidOK[parentType]` bit masks (bit `1 <<< childType`) as assigned in DOMDocumentImpl::isKidOK -/\n"
+    out += lean_list("kidOK", table) + "\n"
+    out += "/-- the extra clause: a Text child of a Document is accepted when it is all white space -/\n"
+    out += "def docTextAllSpacesClause : Bool := %s\n\n" % ("true" if ws_rule else "false")
+    out += "end XV.Gen.KidOK\n"
+    return out
